@@ -833,6 +833,9 @@ func c03ParamRules(e *Env, rule string) {
 			}
 		}
 	}
+	for a := range helperLenAtoms(fn) {
+		got[a] = true
+	}
 	r.Check(got["len(DependsOnServices)>0"] && got["len(DependsOnTags)>0"], rule, key+"#no-service-or-tag-in-params", fmt.Sprintf("a parameter that references a service or a tag is rejected (guards %v)", keysOf(got)))
 	// StepCompileParams iterates in key order
 	pf := e.P.Func(compilerRel, "StepCompileParams.Process")
@@ -853,6 +856,76 @@ func c03ParamRules(e *Env, rule string) {
 		sp := gm.Service("stepCompileParams")
 		r.Check(ctorIs(e, sp, compilerRel, "NewStepCompileParams") && len(sp.Args) == 1 && depIs(sp.Args[0], "service", "paramResolver"), rule, selfRel+"#service:stepCompileParams", "the parameter step uses the parameter resolver")
 	}
+}
+
+// helperLenAtoms: error sites that live in a helper of the same package called from fn, guarded there by
+// `len(<parameter>) > 0`; the atom is reported for the field the call site passes for that parameter
+// (`errIfAny("service", a.DependsOnServices)`), provided the helper's result is used at the call site.
+func helperLenAtoms(fn *ssa.Function) map[string]bool {
+	out := map[string]bool{}
+	fieldOfArg := func(v ssa.Value) string {
+		switch x := v.(type) {
+		case *ssa.UnOp:
+			if fa, ok := x.X.(*ssa.FieldAddr); ok {
+				return fieldName(fa)
+			}
+		case *ssa.Field:
+			if st, ok := x.X.Type().Underlying().(*types.Struct); ok {
+				return st.Field(x.Field).Name()
+			}
+		}
+		return ""
+	}
+	for _, c := range callsIn(fn, true) {
+		g := c.Common().StaticCallee()
+		if g == nil || g.Pkg == nil || g.Pkg != fn.Pkg || len(g.Blocks) == 0 {
+			continue
+		}
+		if v := c.Value(); v == nil || v.Referrers() == nil || len(*v.Referrers()) == 0 {
+			continue
+		}
+		for _, s := range errorSites([]*ssa.Function{g}) {
+			for d := s.call.Block(); d != nil; d = d.Idom() {
+				id := d.Idom()
+				if id == nil {
+					break
+				}
+				iff, ok := id.Instrs[len(id.Instrs)-1].(*ssa.If)
+				if !ok || len(d.Preds) != 1 {
+					continue
+				}
+				bo, ok := iff.Cond.(*ssa.BinOp)
+				if !ok {
+					continue
+				}
+				k, isK := constInt(bo.Y)
+				lc, isLen := bo.X.(*ssa.Call)
+				if !isK || k != 0 || !isLen {
+					continue
+				}
+				if bi, ok := lc.Call.Value.(*ssa.Builtin); !ok || bi.Name() != "len" {
+					continue
+				}
+				prm, ok := lc.Call.Args[0].(*ssa.Parameter)
+				if !ok {
+					continue
+				}
+				onTrue := d == id.Succs[0]
+				nonEmpty := (bo.Op == token.GTR && onTrue) || (bo.Op == token.NEQ && onTrue) || (bo.Op == token.EQL && !onTrue) || (bo.Op == token.LEQ && !onTrue)
+				if !nonEmpty {
+					continue
+				}
+				for i, gp := range g.Params {
+					if gp == prm && i < len(c.Common().Args) {
+						if f := fieldOfArg(c.Common().Args[i]); f != "" {
+							out["len("+f+")>0"] = true
+						}
+					}
+				}
+			}
+		}
+	}
+	return out
 }
 
 // ---- R02.1 ----
